@@ -82,6 +82,9 @@ def streams(rng, tier, ctx):
                 cfg["allocA"] = cfg["allocB"] = r.pick([3000, 20000, 100000])
             if i % 5 == 0:
                 cfg["bwA"] = cfg["bwB"] = r.pick([1472, 2000, 5000])
+            if i % 9 == 4:
+                # a receive allocation large enough for the largest fragment counts (65536 fragments = MAX_PACKET_SIZE)
+                cfg["allocA"] = cfg["allocB"] = 200_000_000
             if i % 7 == 3:
                 # the send-rate ceiling is min(own max_send_rate, the max_receive_rate field of the peer's handshake frame):
                 # a hostile peer may put anything there
